@@ -272,6 +272,12 @@ def session_state(ctx, rid):
             name = (p.fns[f.root].name if f.root and f.root in p.fns else f.name) or ""
             nf += 1
             ok = name in FIELD_WRITERS.get(field, set())
+            if not ok:
+                # a private helper all of whose callers are designated writers of the field (a closure body given a name)
+                import c05
+                allowed = {g.id: g.name for g in p.fns.values() if (g.name or "") in FIELD_WRITERS.get(field, set())
+                           and g.crate == f.crate}
+                ok = c05._sole_allowed_ancestor(p, f.root or fid, allowed) is not None
             r.instance(rid, "Session.%s written by %s" % (field, short(fid)), "ok" if ok else "violation",
                        "%s:%d" % (f.file, f.line))
             if not ok:
